@@ -136,9 +136,9 @@ func c04ErrClass(err error) string {
 
 type c04Op struct {
 	K    string
-	S    int   // stream index, -1 = connection
-	A, B int64 // arguments
-	R, Q int64 // results
+	S    int    // stream index, -1 = connection
+	A, B int64  // arguments
+	R, Q int64  // results
 	E    string `json:",omitempty"`
 }
 
